@@ -297,9 +297,9 @@ pub fn property() -> Property {
             "sets contain only alphanumeric members and ascending ranges",
         ],
         streams: vec![
-            random_stream("patterns", "grammar-generated glob / plain patterns against instances and mutations", case_strategy, |t| t.pick(200_000, 3_000_000), check),
+            random_stream("patterns", "grammar-generated glob / plain patterns against instances and mutations", case_strategy, |t| t.pick(200_000, 10_000_000), check),
             random_stream("malformed", "malformed globs must be rejected at compile time", malformed_strategy, |t| t.pick(200, 2_000), check),
-            random_stream("realistic", "real pkgsrc glob / plain patterns (sample of tests/data/pkgdeps.txt) against real package names built on their literal prefix", real_strategy, |t| t.pick(60_000, 1_000_000), check),
+            random_stream("realistic", "real pkgsrc glob / plain patterns (sample of tests/data/pkgdeps.txt) against real package names built on their literal prefix", real_strategy, |t| t.pick(60_000, 5_000_000), check),
         ],
         selfcheck: m::selfcheck,
         hang_is_violation: false,
